@@ -7,7 +7,9 @@ import sys
 
 from ..gen import c15_harness as hz
 from ..gen import c15_problems as gp
+from ..gen import c16_shapes as shapes
 from ..ref import c15_plan as ref
+from ..ref import c16_exists as exists
 from ..ref import pms_version as pv
 
 ID = "C16"
@@ -21,7 +23,12 @@ RULE = ("C15's random resolver problems, post-processed so that one name N (the 
         "installed H.  min_install: if the run with no source package of N succeeds keeping an installed match of T, the full run "
         "has no merge op for N.  Determinism: every problem x resolver kind is resolved twice in-process from freshly built "
         "repositories, and a sample again in a child interpreter with another PYTHONHASHSEED; status and op sequences must be "
-        "identical.  Non-trivial policy case: >=2 distinct candidate versions match T (or an installed and a source instance "
+        "identical.  Independent resolvability oracle (vt/ref/c16_exists.py, complete search over the subsets of the source "
+        "repository): on single-target universes - the random ones and a structured family (app -> lang from one or two "
+        "dependency classes, lang <-> boot build/runtime cycles with or without a boot-bin any-of escape, cycle members "
+        "installed or not) - if a final set exists that contains H, is slot-consistent, dependency-closed for every merged and "
+        "every leaned-on installed member, unblocked, and can be merged in an order in which every clause of every class is "
+        "already satisfied (no reliance on any cycle), the upgrade run must succeed with H.  Non-trivial policy case: >=2 distinct candidate versions match T (or an installed and a source instance "
         "of H exist / a source version above the installed match exists); distinct = (problem, resolver kind, clause).")
 ASSUMPTIONS = [
     "'resolvable' is decided by an independent run of the resolver on a repository restricted to the candidate in question "
@@ -31,11 +38,21 @@ ASSUMPTIONS = [
     "'visible' = present in the source or installed repository (no masking layer in the fixture)",
     "default resolver options; empty-tree resolvers are only part of the determinism clause (they never consider installed packages)",
     "runs that hit the per-problem time limit or crash are not judged here (crashes are C15's clause)",
+    "the brute-force oracle claims 'H is resolvable' only for plans that lean on no dependency cycle at all and whose "
+    "leaned-on installed packages have their own runtime dependencies in place first; cycle-dependent resolvability is left "
+    "to the restricted-run clause, because the statement does not say which cycles a resolver must be able to break",
+    "the brute-force clause is judged on single-target problems only (with several targets 'the highest resolvable version' "
+    "of one target depends on what the others were given)",
+    "installed fixtures are built packages (built=True) like the packages of a real vdb",
 ]
 SHARDS = {"quick": 4, "thorough": 16}
 TIMEOUT = {"quick": 240, "thorough": 1800}
 MIN_EVALS = 400
-REQUIRED_COUNTERS = ("policy_upgrade_judged", "policy_min_install_judged", "determinism_pairs", "hashseed_child_compared")
+REQUIRED_COUNTERS = ("policy_upgrade_judged", "policy_min_install_judged", "determinism_pairs", "hashseed_child_compared",
+                     "bruteforce_judged:shape", "bruteforce_judged:random")
+
+K_BUILT_PRUNED = "built-candidate-pruned-by-build-deps"
+K_GREEDY = "greedy-provider-choice-not-revisited"
 
 
 def scrub(rng, problem):
@@ -70,6 +87,8 @@ def scrub(rng, problem):
     elif r < 0.4:
         t["slot"] = rng.choice(cands)["slot"]
     p["targets"] = [x for x in p["targets"] if x["name"] != n][:1]
+    if rng.random() < 0.5:
+        p["targets"] = []
     p["targets"].insert(rng.randrange(len(p["targets"]) + 1), t)
     return p, n, t
 
@@ -104,6 +123,16 @@ def brief_ops(ops):
 
 
 def classify(w):
+    if w.get("kind") == "highest-resolvable-not-chosen":
+        cf = w.get("counterfactual") or {}
+        # the resolver chooses H as soon as the installed (built) packages carry no DEPEND/BDEPEND: a built candidate
+        # was discarded because of build-time atoms the resolver never walks for built packages
+        if cf.get("installed_build_deps_stripped") == "H chosen":
+            return K_BUILT_PRUNED
+        # random universes only: H is chosen once the source repository offers nothing but the oracle's plan, i.e. the
+        # loss comes from a provider picked for an earlier atom that the search never revisits
+        if w.get("family") == "random" and cf.get("source_reduced_to_oracle_plan") == "H chosen":
+            return K_GREEDY
     return None
 
 
@@ -148,7 +177,7 @@ class Checker:
         full_up = self.determinism(problem, "upgrade")
         if full_up["status"] == "timeout":
             ctx.count("problems_skipped_after_timeout")
-            return
+            return full_up
         full_min = self.determinism(problem, "min_install")
         full_empty = self.determinism(problem, "empty_tree")
         if "timeout" not in (full_min["status"], full_empty["status"]):
@@ -234,6 +263,58 @@ class Checker:
         if ctx.want_sample() and full_up["status"] == "success" and len(distinct_versions) >= 2:
             ctx.sample({"problem": gp.describe(problem), "name": name, "target": gp.render_atom(target),
                         "upgrade_ops": brief_ops(full_up["ops"]), "min_install_ops": brief_ops(full_min["ops"])})
+        return full_up
+
+    # -- independent resolvability oracle ---------------------------------------------------------------
+    def chose(self, problem, res, name, target, hver):
+        return res["status"] == "success" and any(
+            m["name"] == name and ref.atom_matches(target, m) and pv.cmp_fullver(m["ver"], hver) == 0
+            for m in members_of(problem, res))
+
+    def bruteforce(self, problem, name, target, family, full_up=None):
+        ctx = self.ctx
+        if len(problem["targets"]) != 1:
+            ctx.count("bruteforce_skipped_multi_target")
+            return
+        high = ref.highest_matching(problem, target)
+        if not high:
+            return
+        hver = high[0][1]["ver"]
+        ans, plan = exists.plan_exists(problem, target, hver, acyclic=True)
+        ctx.count("bruteforce_oracle:%s" % ans)
+        if ans is not True:
+            return
+        if full_up is None:
+            full_up = self.run(problem, "upgrade")
+        if full_up["status"] in ("timeout", "crash"):
+            ctx.skip_unspecified("resolution crashed or did not finish (C15's clause)")
+            return
+        ctx.evaluated()
+        ctx.count("bruteforce_judged:" + family)
+        ncand = len({s["ver"] for s in problem["source"] + problem["installed"] if ref.atom_matches(target, s)})
+        if ncand >= 2:
+            ctx.nontrivial(json.dumps([problem, "upgrade", "bruteforce"], sort_keys=True))
+        if self.chose(problem, full_up, name, target, hver):
+            return
+        # counterfactual runs that name the mechanism (they never change the verdict)
+        cf = {}
+        stripped = gp._copy(problem)
+        for s_ in stripped["installed"]:
+            s_["deps"]["DEPEND"], s_["deps"]["BDEPEND"] = [], []
+        if stripped != problem:
+            r = self.run(stripped, "upgrade")
+            cf["installed_build_deps_stripped"] = "H chosen" if self.chose(stripped, r, name, target, hver) else r["status"]
+        keep = {tuple(x) for x in plan}
+        reduced = {"source": [s_ for s_ in problem["source"] if ref.ident(s_) in keep],
+                   "installed": list(problem["installed"]), "targets": list(problem["targets"])}
+        r = self.run(reduced, "upgrade")
+        cf["source_reduced_to_oracle_plan"] = "H chosen" if self.chose(reduced, r, name, target, hver) else r["status"]
+        got = [[m["ver"], m["origin"]] for m in members_of(problem, full_up)
+               if m["name"] == name and ref.atom_matches(target, m)] if full_up["status"] == "success" else []
+        ctx.violation("highest-resolvable-not-chosen", self.witness(
+            problem, "upgrade", "highest-resolvable-not-chosen", name=name, target=gp.render_atom(target), family=family,
+            highest=hver, oracle_plan=["%s-%s:%s" % tuple(x) for x in plan], status=full_up["status"], chosen=got,
+            ops=brief_ops(full_up["ops"]), counterfactual=cf))
 
     # -- other interpreter, other hash seed ------------------------------------------------------------
     def hashseed_child(self, problems):
@@ -294,12 +375,28 @@ def child_main(path):
     sys.stdout.flush()
 
 
+def canonical_universes():
+    """Hand-written members of the structured family that every run exercises."""
+    A, P = shapes.atom, shapes.pkg
+    lang, boot, bootbin, app = shapes.LANG, shapes.BOOT, shapes.BOOTBIN, shapes.APP
+    out = []
+    # lang builds with boot or boot-bin, boot needs lang (a build cycle with a way out), app-2 names lang twice
+    for app_classes in (("DEPEND", "RDEPEND"), ("BDEPEND", "PDEPEND"), ("RDEPEND",)):
+        for inst in ((), (boot,)):
+            src = [P(lang, "1", {"DEPEND": [{"any": [A(boot), A(bootbin)]}]}), P(boot, "1", {"DEPEND": [A(lang)]}),
+                   P(bootbin, "1"), P(app, "1"), P(app, "2", {c: [A(lang)] for c in app_classes})]
+            installed = [P(boot, "1", {"DEPEND": [A(lang)]})] if boot in inst else []
+            out.append(({"source": src, "installed": installed, "targets": [A(app)]}, app))
+    return out
+
+
 def run(ctx):
     import logging
 
     logging.disable(logging.WARNING)
     ck = Checker(ctx)
-    n = ctx.budget(110, 1200)
+    # (a) random universes
+    n = ctx.budget(90, 1200)
     for i in range(n):
         base = gp.gen_problem(ctx.rng)
         sc = scrub(ctx.rng, base)
@@ -307,9 +404,28 @@ def run(ctx):
             continue
         problem, name, target = sc
         ctx.count("problems")
-        ck.policy(problem, name, target)
-        if ctx.out_of_time(45):
-            ctx.note("stopped early by the soft deadline after %d problems" % (i + 1))
+        full_up = ck.policy(problem, name, target)
+        ck.bruteforce(problem, name, target, "random", full_up)
+        if ctx.out_of_time(70):
+            ctx.note("random universes stopped early by the soft deadline after %d problems" % (i + 1))
+            break
+    # (b) structured universes: cycles, any-of escapes, one atom in two dependency classes
+    if ctx.shard == 0:
+        for problem, name in canonical_universes():
+            ctx.count("canonical_universes")
+            t = problem["targets"][0]
+            ck.bruteforce(problem, name, t, "shape", ck.policy(problem, name, t))
+    n = ctx.budget(1200, 8000)
+    for i in range(n):
+        problem, name, target = shapes.gen_shape(ctx.rng)
+        ctx.count("shape_problems")
+        if i % 4 == 0:
+            full_up = ck.policy(problem, name, target)
+        else:
+            full_up = None
+        ck.bruteforce(problem, name, target, "shape", full_up)
+        if i % 20 == 0 and ctx.out_of_time(45):
+            ctx.note("structured universes stopped early by the soft deadline after %d problems" % (i + 1))
             break
     sample = ck.sampled[: ctx.budget(25, 150)]
     ck.hashseed_child(sample)
@@ -323,7 +439,8 @@ def replay(ctx, w):
     problem = w["problem"]
     if w.get("name"):
         t = [x for x in problem["targets"] if x["name"] == w["name"]][0]
-        ck.policy(problem, w["name"], t)
+        full_up = ck.policy(problem, w["name"], t)
+        ck.bruteforce(problem, w["name"], t, w.get("family") or "shape", full_up)
     else:
         for kind in hz.KINDS:
             ck.determinism(problem, kind)
